@@ -59,6 +59,23 @@ def unwrap(n):
     return n
 
 
+def return_type_of(fq):
+    """return type of a function type string `<ret>(<params>)<quals>`; the return type itself may contain parentheses
+    (`(anonymous namespace)::t &(const v &)`), so the parameter list is found from the right"""
+    if '->' in fq.split(')')[-1]:
+        return fq.split('(')[0].strip()
+    j = fq.rfind(')')
+    depth = 0
+    for i in range(j, -1, -1):
+        if fq[i] == ')':
+            depth += 1
+        elif fq[i] == '(':
+            depth -= 1
+            if depth == 0:
+                return fq[:i].strip()
+    return fq.split('(')[0].strip()
+
+
 def string_literal_of(n):
     """the string literal an expression is built from ("name" -> std::string_view etc.), else None"""
     seen = 0
@@ -539,7 +556,8 @@ class Printer:
         if k == 'ReturnStmt':
             if not inner:
                 return self.unwind(0, p) + f'{p}return;\n'
-            e = self.expr(inner[0])
+            # a function returning a reference returns the address of the denoted object (references print as pointers)
+            e = self.addr(inner[0]) if getattr(self, 'ret_is_ref', False) else self.expr(inner[0])
             if any(self.scopes):
                 # the return value is computed first, then the RAII locals are destroyed (C++ order)
                 self.tmp += 1
@@ -644,7 +662,7 @@ class Printer:
         params = [c for c in d['inner'] if c['kind'] == 'ParmVarDecl']
         body = [c for c in d['inner'] if c['kind'] == 'CompoundStmt'][0]
         fq = d['type']['qualType']
-        rett = fq.split('(')[0].strip()
+        rett = return_type_of(fq)
         if d.get('kind') == 'CXXConstructorDecl':
             rc = 'void'
         elif ret_override:
@@ -652,6 +670,7 @@ class Printer:
         else:
             rc = self.ctype_q(rett)
         self.ret_ctype = rc
+        self.ret_is_ref = rett.rstrip().endswith('&') and d.get('kind') != 'CXXConstructorDecl'
         ps = []
         if self.self_struct:
             ps.append(f'{self.self_struct}* self')
